@@ -12,7 +12,7 @@
    object: [applied] increments recorded, [delivered] handed to the reporter,
    [closed_at] = [applied] when Close was called, [cleared] = dropped. *)
 From Coq Require Import ZArith List Bool Arith.
-From Tally Require Import Model.Registry Proof.RegistryP Proof.Registry2P.
+From Tally Require Import Model.Registry Proof.RegistryP Proof.Registry2P Model.RegPass Proof.RegPassP.
 From Tally Require Model.Locks Proof.LocksP Gen.LockSkel Proof.LockSkelOk.
 Import ListNotations.
 
@@ -76,14 +76,36 @@ Theorem C07_double_close : forall x, close_obj (close_obj x) = close_obj x.
 Proof. exact close_twice. Qed.
 Print Assumptions C07_double_close.
 
-(* C07_closed_is_visited (a pass that begins after Close o and completes leaves
-   closed_at o <= delivered o) is NOT proved: the model lets a pass end at any
-   point (Go's map iteration guarantee "every entry present throughout the
-   iteration is produced" is not modelled).  What is proved instead is the step
-   that matters, as part of the invariant: a pass or a re-request that has read
-   closed = true for an object only removes and clears it after a report, i.e.
-   with closed_at <= delivered (okpc for P4/P5/G3/G3b/G4).  The harness checks
-   the end-to-end clause on the implementation after a complete final pass. *)
+(* "... a later report pass delivers it": pass completeness.  Registry.run lets a pass end at any
+   point; Model/RegPass.v runs the same steps under a clock and with the one guarantee of Go's map
+   iteration that matters here - every entry that is present during the whole iteration is
+   produced - so that a pass can END only when every binding that is older than the pass has been
+   visited (the correspondence check holds the implementation to this: a report pass of the real
+   registry that ends where the model refuses to is a mismatch).  [pdone s i = Some p]: thread i
+   has completed a pass that began at time p; [cclk s o]: the time at which Close was called on o.
+   A pass that began after Close was called on a scope and that has completed has delivered
+   everything recorded on that scope before the Close - under every schedule, with any number
+   of concurrent requests for the same or other spellings, other passes and other Closes. *)
+Theorem C07_closed_is_visited : forall san,
+  (forall k, san (san k) = san k) -> san 0 = 0 ->
+  forall ths sched i p o,
+  (forall t, In t ths -> tpc t = Idle) ->
+  let s := irun san (iinit ths) sched in
+  pdone s i = Some p ->
+  closed (obj (base s) o) = true -> cclk s o < p ->
+  closed_at (obj (base s) o) <= delivered (obj (base s) o).
+Proof. exact closed_is_visited. Qed.
+Print Assumptions C07_closed_is_visited.
+
+(* the runs of that model are runs of the registry model (a refused step is a step not taken), so
+   every theorem of this file holds of them *)
+Theorem C07_pass_model_is_registry_model : forall san sched s,
+  exists sched', base (irun san s sched) = run san (base s) sched'.
+Proof. exact base_irun. Qed.
+Print Assumptions C07_pass_model_is_registry_model.
+
+(* the step that matters inside a pass, as part of the invariant of the registry model: a pass or a
+   re-request that has read closed = true for an object only removes and clears it after a report *)
 Theorem C07_reported_before_dropped_partial : forall san ths sched t,
   (forall t, In t ths -> tpc t = Idle) ->
   let s := run san (init ths) sched in
@@ -114,6 +136,27 @@ Example C07_example :
     [(0, 0, false); (1, 1, true); (2, 2, false)] /\
   lookup (reg s) 2 = Some 2.
 Proof. vm_compute. split; reflexivity. Qed.
+
+(* non-vacuity of C07_closed_is_visited: the same sanitizer; thread 0 obtains spelling 1, records
+   and closes; thread 1 runs a pass.  The pass cannot end before it has visited the root (refused
+   twice: the state does not change), visits the root, cannot end before it has visited the closed
+   scope, visits it under both of its keys and then ends: it began at time 5, Close was called at
+   time 4, and the increment has been delivered. *)
+Example C07_pass_example :
+  let san := fun k => match k with 1 => 2 | _ => k end in
+  let t0 := {| tpc := Idle; cur := None; prog := [AGet 1; AInc; AClose]; passes := 0 |} in
+  let t1 := {| tpc := Idle; cur := None; prog := []; passes := 1 |} in
+  let s0 := irun san (iinit [t0; t1]) (repeat (0, 0) 4) in
+  let s1 := irun san s0 [(1, 9); (1, 9)] in
+  let s2 := irun san s1 [(1, 0); (1, 0); (1, 0)] in
+  let s3 := irun san s2 [(1, 9)] in
+  let s4 := irun san s3 (repeat (1, 2) 5 ++ repeat (1, 1) 5 ++ [(1, 9)]) in
+  (clk s0, cclk s0 1) = (5, 4) /\ clk s1 = clk s0 /\ clk s3 = clk s2 /\
+  pdone s3 1 = None /\ pdone s4 1 = Some 5 /\
+  map (fun x => (applied x, delivered x, closed x, cleared x)) (objs (base s4)) =
+    [(0, 0, false, false); (1, 1, true, true)] /\
+  reg (base s4) = [(0, 0)].
+Proof. vm_compute. repeat split; reflexivity. Qed.
 
 (* "... and none of this can deadlock" / "... without deadlock": the locks of package tally.
    [LockSkel.procs] is the lock skeleton of the package, regenerated from the Go sources on
